@@ -646,7 +646,10 @@ class GetDescriptorHandlerMux(Elaboratable):
                 handler.start_position  .eq(self.start_position),
             ]
             stall_latch = Signal(name=f"stall_latch_{i}")
-            m.d.comb += stalled[i].eq(handler.stall | stall_latch)
+
+            # A latched stall belongs to the previous transaction; don't let it count during
+            # the cycle in which a new transaction starts (it is cleared on the next edge).
+            m.d.comb += stalled[i].eq(handler.stall | (stall_latch & ~self.start))
             with m.If(self.start | self.stall):
                 m.d.sync += stall_latch.eq(0)
             with m.If(handler.stall & ~self.stall):
